@@ -195,10 +195,12 @@ KINDS_BASIC = ("pfx", "sfx", "whole", "int")
 KINDS_ALL = ("pfx", "sfx", "whole", "int", "epfx", "esfx", "pt")
 
 
-def e2_candidates(n, kinds):
+def e2_candidates(n, kinds, pairs=None):
   out = []
   for s1 in range(n):
     for s2 in range(n):
+      if pairs is not None and (s1, s2) not in pairs:
+        continue
       for o1 in "+-":
         for o2 in "+-":
           for k1 in kinds:
@@ -207,8 +209,8 @@ def e2_candidates(n, kinds):
   return out
 
 
-def e2_graphs(n, kmax, kinds, kmin=0):
-  c = e2_candidates(n, kinds)
+def e2_graphs(n, kmax, kinds, kmin=0, pairs=None):
+  c = e2_candidates(n, kinds, pairs)
   for k in range(kmin, kmax + 1):
     for es in itertools.combinations(c, k):
       yield ("e2", n, es)
@@ -288,19 +290,24 @@ def family_gfa2_twins(tier):
   return out
 
 
+AB = ((0, 0), (0, 1), (1, 0))     # (b,b) is (a,a) renamed
+
+
 def family_gfa2_mixed(tier):
   out = []
   if tier == "quick":
     for g in e2_graphs(1, 2, KINDS_BASIC):
       out.append(("e2", g))
-    for g in e2_graphs(2, 2, KINDS_BASIC, kmin=1):
-      out.append(("e2", g))
     for g in e2_graphs(2, 1, KINDS_ALL, kmin=1):
+      out.append(("e2", g))
+    for g in e2_graphs(2, 2, KINDS_BASIC, kmin=2, pairs=AB):
       out.append(("e2", g))
   else:
     for g in e2_graphs(1, 3, KINDS_BASIC):
       out.append(("e2", g))
-    for g in e2_graphs(2, 2, KINDS_ALL, kmin=1):
+    for g in e2_graphs(2, 1, KINDS_ALL, kmin=1):
+      out.append(("e2", g))
+    for g in e2_graphs(2, 2, KINDS_ALL, kmin=2, pairs=AB):
       out.append(("e2", g))
     for g in e2_graphs(3, 2, KINDS_BASIC, kmin=1):
       out.append(("e2", g))
